@@ -36,11 +36,11 @@ TRUNC = ["0", "1", "outer", "inner", "len-1"]
 def gen_cases(tier, seed):
     rng = random.Random(2000 + seed)
     cases = []
-    for i in range(36 if tier == "quick" else 1200):
+    for i in range(36 if tier == "quick" else 750):
         cases.append(dict(kind="crash", seed=rng.randrange(10 ** 9), ninst=rng.choice([1, 1, 2, 3]), compress=False))
     for i in range(6 if tier == "quick" else 120):
         cases.append(dict(kind="crash", seed=rng.randrange(10 ** 9), ninst=1, compress=True))
-    for i in range(10 if tier == "quick" else 300):
+    for i in range(10 if tier == "quick" else 200):
         cases.append(dict(kind="torn", seed=rng.randrange(10 ** 9), ninst=rng.choice([2, 3]), via=["failpoint", "posthoc"][i % 2]))
     for i in range(3 if tier == "quick" else 12):
         cases.append(dict(kind="killed-child", seed=rng.randrange(10 ** 9)))
